@@ -161,14 +161,16 @@ def sci_pairs(rng, w: int, s: int, n: int, allow_float: bool):
     small positive ones"""
     P = []
     for _ in range(n):
+        as_float = allow_float and rng.random() < 0.5   # one form per pair: a column is either all floats or all text
+
         def sv():
             M = rng.choice((1, -1)) * rng.choice([rng.randint(1, 9), rng.randint(10, 99), rng.randint(100, 999), 5, 49, 51, 9])
             d = rng.randint(0, len(str(abs(M))) - 1) if rng.random() < 0.7 else 0
             x = rng.choice([-(s + rng.randint(1, 25)), -(s + 1), -s, -(s - 1), -(s + 2), -rng.randint(0, s), rng.randint(0, max(0, min(3, w - s - 4)))])
-            if allow_float and rng.random() < 0.5:
+            if as_float:
                 return float_lit(float(f"{dstr(M, d)}e{x}"))
             return ("sci", M, d, x, "text")
-        P.append(("sci", sv(), sv()))
+        P.append(("sci-float" if as_float else "sci", sv(), sv()))
     return P
 
 
@@ -201,7 +203,8 @@ def lit_coq(op) -> str:
     from common import coq_z
     if op[0] == "plain":
         return f"(Plain {coq_z(op[1])} {coq_z(op[2])})"
-    return f"(Sci {coq_z(op[1])} {coq_z(op[2])} {coq_z(op[3])})"
+    # a float of a DataFrame column (FSci) and text in exponent notation (Sci) take different paths in the engine
+    return f"({'FSci' if op[-1] == 'float' else 'Sci'} {coq_z(op[1])} {coq_z(op[2])} {coq_z(op[3])})"
 
 
 FLOATS = [1.5, -2.25, 0.1, 123456.789, -0.000125, 3.0, 0.5, 1e-4]
@@ -446,10 +449,8 @@ def run(ctx):
                 fine = lambda x: isinstance(x, tuple) and x[0] == "OValue"  # noqa: E731
                 if fine(ma) and fine(ms):
                     isf = isinstance(ra, list), isinstance(rb, list)
-                    if isf[0] != isf[1]:  # a column must be all text or all float: send the float as its repr text
-                        ra = repr(ra[1]) if isf[0] else ra
-                        rb = repr(rb[1]) if isf[1] else rb
-                        isf = (False, False)
+                    if isf[0] != isf[1]:
+                        raise RuntimeError(f"generator bug: a pair mixes a float and a text operand: {a} {b}")
                     (fbatch if isf[0] else batch).append((ci, ra, rb))
                 else:
                     ops = []
@@ -549,11 +550,11 @@ def run(ctx):
                                 max_ulps = max(max_ulps, ulps)
                             sc = spec_case.get((pi, si, ci, sub))
                             if okc and sc is not None and sc != mc and isinstance(sc, tuple) and sc[0] == "OValue":
-                                note("exponent-notation-input-mishandled",
-                                     f"under DECIMAL({w},{s}) an input written in exponent notation is not stored rounded to {s} decimals: "
+                                note("exponent-notation-text-mishandled",
+                                     f"under DECIMAL({w},{s}) TEXT in exponent notation ({r['path']} path) is not stored rounded to {s} decimals: "
                                      f"{ra} {op} {rb} returns {float.fromhex(er['vals'][op][str(ci)])!r}, exact decimal arithmetic at scale {s} gives "
                                      f"{sc[2]}/10^{s} (DuckDB's VARCHAR->DECIMAL cast rounds on the leading mantissa digit when more digits are dropped "
-                                     f"than the mantissa has; floats below 1e-4 take that path through CAST(CAST(col AS VARCHAR) AS DECIMAL))",
+                                     f"than the mantissa has; floating-point columns no longer take that path)",
                                      {"steps": [{"env": {k: v for k, v in ((WVAR, st['ew']), (SVAR, st['es'])) if v is not None},
                                                  "runs": [{"rows": [[ci, ra, rb]], "ops": [op], "path": r["path"]}]}],
                                       "expected": f"{sc[2]}/10^{s}", "observed": float.fromhex(er['vals'][op][str(ci)])})
@@ -565,8 +566,8 @@ def run(ctx):
                             step_classes.add("OK")
                             sc = spec_case.get((pi, si, ci, sub))
                             if ecls == "LoadReject" and isinstance(sc, tuple) and sc[0] == "OValue":
-                                note("exponent-notation-input-mishandled",
-                                     f"under DECIMAL({w},{s}) an input written in exponent notation that fits the precision is rejected: {ra} {op} {rb} raises "
+                                note("exponent-notation-text-mishandled",
+                                     f"under DECIMAL({w},{s}) TEXT in exponent notation ({r['path']} path) that fits the precision is rejected: {ra} {op} {rb} raises "
                                      f"DataLoadError 0-3-1-6 ({er['msg'][-120:]}); exact decimal arithmetic at scale {s} gives {sc[2]}/10^{s} (DuckDB's "
                                      f"VARCHAR->DECIMAL cast demands that the mantissa alone fits w-s integer digits)",
                                      {"steps": [{"env": {k: v for k, v in ((WVAR, st['ew']), (SVAR, st['es'])) if v is not None},
